@@ -734,6 +734,10 @@ def run(ctx):
     multi_noeol = multipart_body([("a", "1")], final_eol=False)
     plain_body = b"plain text body, no structure\r\nsecond line\r\n"
     big_plain = b"0123456789abcdef" * 1300          # 20800 bytes, 3 chunks
+    # bodies of more than one 8 KiB block, not a whole number of blocks
+    big_form = b"&".join(b"k%d=%s" % (i, b"v" * (i % 40)) for i in range(400))
+    big_json = json.dumps({"k%d" % i: [i, "x" * (i % 50)]
+                           for i in range(500)}).encode()
     # (content type, body, parser kind, variant)
     bodies = [
         ("application/json", json_body, 0, "json"),
@@ -742,6 +746,8 @@ def run(ctx):
         (MULTI, multi_noeol, 1, "multipart-no-final-eol"),
         ("text/plain", plain_body, 2, "plain"),
         ("text/plain", big_plain, 2, "plain-big"),
+        (URLENC, big_form, 0, "urlencoded-big"),
+        ("application/json", big_json, 0, "json-big"),
         (None, plain_body, 2, "no-type"),
         ("application/octet-stream", plain_body, 2, "other"),
     ]
@@ -755,7 +761,8 @@ def run(ctx):
         for (adata, ajson, aform, aargs, dsz, csz, plain_in_form) in combos:
             if plain_in_form and kind != 2:
                 continue
-            if quick and variant in ("plain-big", "no-type", "other") \
+            if quick and variant in ("plain-big", "no-type", "other",
+                                     "urlencoded-big", "json-big") \
                     and (dsz == "equal" or not aargs):
                 continue
             if quick and not aargs and csz == "above":
